@@ -65,6 +65,7 @@ class energy_noh_residual(newton_solver_residual_function):
             if not hasattr(new_eos, method):
                 raise ValueError(f"Error: The equation of state class does not have the required member method: {method}.")
         self.equation_of_state = new_eos
+        self.e_0 = self.equation_of_state.e(self.rho_0, self.P_0) # The initial energy depends on the equation of state
 
     def set_new_initial_conditions(self, new_initial_conditions):
         self.u_0 = new_initial_conditions['velocity'] # Sets initial velocity
@@ -261,6 +262,7 @@ class pressure_noh_residual(newton_solver_residual_function):
             if not hasattr(new_eos, method):
                 raise ValueError(f"Error: The equation of state class does not have the required member method: {method}.")
         self.equation_of_state = new_eos
+        self.e_0 = self.equation_of_state.e(self.rho_0, self.P_0) # The initial energy depends on the equation of state
 
     def set_new_initial_conditions(self, new_initial_conditions):
         self.u_0 = new_initial_conditions['velocity'] # Sets initial velocity
